@@ -748,8 +748,27 @@ func ruleProvOffsets(c *Ctx) {
 		return
 	}
 	nOff, nLine := 0, 0
-	for _, fn := range p.Funcs {
-		// the cut bound(s) used in this function
+	paramIndex := func(fn *ssa.Function, v ssa.Value) int {
+		for i, q := range fn.Params {
+			if ssa.Value(q) == v {
+				return i
+			}
+		}
+		return -1
+	}
+	callSites := func(fn *ssa.Function) []*ssa.Call {
+		var out []*ssa.Call
+		for _, g := range p.Funcs {
+			eachInstr(g, func(in ssa.Instruction) {
+				if call, ok := in.(*ssa.Call); ok && call.Call.StaticCallee() == fn {
+					out = append(out, call)
+				}
+			})
+		}
+		return out
+	}
+	// the cut bound(s) of a function: low bounds of `buf = buf[k:]`
+	cutsOf := func(fn *ssa.Function) []ssa.Value {
 		var cuts []ssa.Value
 		eachInstr(fn, func(in ssa.Instruction) {
 			if st, ok := in.(*ssa.Store); ok {
@@ -760,7 +779,89 @@ func ruleProvOffsets(c *Ctx) {
 				}
 			}
 		})
+		return cuts
+	}
+	// isBufPrefix: v is buf[:h] (possibly through a named local or a three-index slice) of the parser's buffer
+	isBufPrefix := func(v ssa.Value) (ssa.Value, bool) {
+		sl, ok := v.(*ssa.Slice)
+		if !ok || sl.Low != nil && !isZero(sl.Low) || sl.High == nil {
+			return nil, false
+		}
+		if _, ok := isLoadOfField(sl.X, "BlockParser", "buf"); !ok {
+			return nil, false
+		}
+		return sl.High, true
+	}
+	// checkAddendIn decides one addend in the context of fn; cutOK says whether a measured prefix bound is the bound cut
+	// off in that context. A parameter is followed to the corresponding argument at every call site of fn.
+	var checkAddendIn func(fn *ssa.Function, add ssa.Value, helper *ssa.Function, allowOne bool, cutOK func(ssa.Value) bool, depth int) (bool, string)
+	checkAddendIn = func(fn *ssa.Function, add ssa.Value, helper *ssa.Function, allowOne bool, cutOK func(ssa.Value) bool, depth int) (bool, string) {
+		if allowOne {
+			if v, ok := constInt(add); ok && v == 1 {
+				return true, "constant 1 (one blank line)"
+			}
+		}
+		v := add
+		for {
+			if cv, ok := v.(*ssa.Convert); ok {
+				v = cv.X
+				continue
+			}
+			break
+		}
+		if j := paramIndex(fn, v); j >= 0 && depth < 3 {
+			sites := callSites(fn)
+			if len(sites) == 0 {
+				return false, "addend is a parameter of a function without call sites"
+			}
+			fnCuts := cutsOf(fn)
+			for _, call := range sites {
+				caller := call.Parent()
+				if j >= len(call.Call.Args) {
+					return false, "call with too few arguments"
+				}
+				callerCuts := cutsOf(caller)
+				ok, why := checkAddendIn(caller, call.Call.Args[j], helper, allowOne, func(h ssa.Value) bool {
+					// the bound cut in fn, seen from the caller: an argument feeding fn's cut, or the caller's own cut
+					for _, k := range fnCuts {
+						if pi := paramIndex(fn, k); pi >= 0 && pi < len(call.Call.Args) && sameValue(h, call.Call.Args[pi]) {
+							return true
+						}
+					}
+					for _, k := range callerCuts {
+						if sameValue(h, k) {
+							return true
+						}
+					}
+					return len(fnCuts) == 0 && len(callerCuts) == 0
+				}, depth+1)
+				if !ok {
+					return false, fmt.Sprintf("at the call in %s: %s", shortFuncName(caller), why)
+				}
+			}
+			return true, fmt.Sprintf("parameter; at each of the %d call site(s) %s(buf[:k]) with k the cut bound%s", len(sites), helper.Name(), map[bool]string{true: " or 1", false: ""}[allowOne])
+		}
+		call, ok := v.(*ssa.Call)
+		if !ok || call.Call.StaticCallee() != helper {
+			return false, "addend does not come from " + helper.Name() + ": " + add.String()
+		}
+		h, ok := isBufPrefix(call.Call.Args[0])
+		if !ok {
+			return false, helper.Name() + " is not applied to a prefix buf[:k] of the parser's buffer"
+		}
+		if !cutOK(h) {
+			return false, "the prefix measured is not the prefix that is cut off the buffer"
+		}
+		return true, helper.Name() + "(buf[:k]) with k the cut bound"
+	}
+	// advancers: functions that add a valid addend to BlockParser.offset (directly)
+	advancers := map[*ssa.Function]bool{}
+	for _, fn := range p.Funcs {
+		cuts := cutsOf(fn)
 		matchesCut := func(h ssa.Value) bool {
+			if len(cuts) == 0 {
+				return true
+			}
 			for _, k := range cuts {
 				if sameValue(h, k) {
 					return true
@@ -768,12 +869,11 @@ func ruleProvOffsets(c *Ctx) {
 			}
 			return false
 		}
-		// addend checker
-		checkAddend := func(rule, key string, st *ssa.Store, field string, helper *ssa.Function, allowOne bool) {
+		checkAddend := func(rule, key string, st *ssa.Store, field string, helper *ssa.Function, allowOne bool) bool {
 			bo, ok := st.Val.(*ssa.BinOp)
 			if !ok || bo.Op != token.ADD {
 				c.Viol(rule, key, st.Pos(), "value stored is not `old + addend`: "+st.Val.String())
-				return
+				return false
 			}
 			var add ssa.Value
 			if _, ok := isLoadOfField(bo.X, "BlockParser", field); ok {
@@ -782,41 +882,11 @@ func ruleProvOffsets(c *Ctx) {
 				add = bo.X
 			} else {
 				c.Viol(rule, key, st.Pos(), "neither operand is the previous value of the field")
-				return
+				return false
 			}
-			if allowOne {
-				if v, ok := constInt(add); ok && v == 1 {
-					c.OK(rule, key, st.Pos(), "constant 1 (one blank line)")
-					return
-				}
-			}
-			v := add
-			for {
-				if cv, ok := v.(*ssa.Convert); ok {
-					v = cv.X
-					continue
-				}
-				break
-			}
-			call, ok := v.(*ssa.Call)
-			if !ok || call.Call.StaticCallee() != helper {
-				c.Viol(rule, key, st.Pos(), "addend does not come from "+helper.Name()+": "+add.String())
-				return
-			}
-			sl, ok := call.Call.Args[0].(*ssa.Slice)
-			if !ok || sl.Low != nil && !isZero(sl.Low) || sl.High == nil {
-				c.Viol(rule, key, call.Pos(), helper.Name()+" is not applied to a prefix buf[:k]")
-				return
-			}
-			if _, ok := isLoadOfField(sl.X, "BlockParser", "buf"); !ok {
-				c.Viol(rule, key, call.Pos(), helper.Name()+" is not applied to the parser's buffer")
-				return
-			}
-			if len(cuts) > 0 && !matchesCut(sl.High) {
-				c.Viol(rule, key, call.Pos(), "the prefix measured is not the prefix that is cut off the buffer")
-				return
-			}
-			c.OK(rule, key, st.Pos(), helper.Name()+"(buf[:k]) with k the cut bound")
+			good, why := checkAddendIn(fn, add, helper, allowOne, matchesCut, 0)
+			c.Check(good, rule, key, st.Pos(), why)
+			return good
 		}
 		eachInstr(fn, func(in ssa.Instruction) {
 			st, ok := in.(*ssa.Store)
@@ -828,7 +898,9 @@ func ruleProvOffsets(c *Ctx) {
 					return
 				}
 				nOff++
-				checkAddend("PROV(offset)", fmt.Sprintf("%s:offset#%d", shortFuncName(fn), nOff), st, "offset", unp, false)
+				if checkAddend("PROV(offset)", fmt.Sprintf("%s:offset#%d", shortFuncName(fn), nOff), st, "offset", unp, false) {
+					advancers[fn] = true
+				}
 			}
 			if fa, ok := isFieldAddr(st.Addr, "BlockParser", "lineno"); ok {
 				if _, isAlloc := fa.X.(*ssa.Alloc); isAlloc {
@@ -837,11 +909,42 @@ func ruleProvOffsets(c *Ctx) {
 				nLine++
 				checkAddend("PROV(lineno)", fmt.Sprintf("%s:lineno#%d", shortFuncName(fn), nLine), st, "lineno", lc, true)
 			}
+		})
+	}
+	for _, fn := range p.Funcs {
+		cuts := cutsOf(fn)
+		matchesCut := func(h ssa.Value) bool {
+			if len(cuts) == 0 {
+				return true
+			}
+			for _, k := range cuts {
+				if sameValue(h, k) {
+					return true
+				}
+			}
+			return false
+		}
+		var startLoad ssa.Instruction
+		eachInstr(fn, func(in ssa.Instruction) {
+			if st, ok := in.(*ssa.Store); ok {
+				if _, ok := isFieldAddr(st.Addr, "RootBlock", "StartOffset"); ok {
+					if ld, ok := st.Val.(ssa.Instruction); ok {
+						startLoad = ld
+					}
+				}
+			}
+		})
+		eachInstr(fn, func(in ssa.Instruction) {
+			st, ok := in.(*ssa.Store)
+			if !ok {
+				return
+			}
 			if _, ok := isFieldAddr(st.Addr, "RootBlock", "EndOffset"); ok {
 				nOff++
 				key := fmt.Sprintf("%s:EndOffset#%d", shortFuncName(fn), nOff)
 				bo, ok := st.Val.(*ssa.BinOp)
 				good := false
+				why := "EndOffset must be offset + unpaddedNullLength(buf[:k]) with k the cut bound, or the offset after it was advanced by exactly that"
 				if ok && bo.Op == token.ADD {
 					for _, pair := range [][2]ssa.Value{{bo.X, bo.Y}, {bo.Y, bo.X}} {
 						if _, ok := isLoadOfField(pair[0], "BlockParser", "offset"); ok {
@@ -854,14 +957,43 @@ func ruleProvOffsets(c *Ctx) {
 								break
 							}
 							if call, ok := v.(*ssa.Call); ok && call.Call.StaticCallee() == unp {
-								if sl, ok := call.Call.Args[0].(*ssa.Slice); ok && sl.High != nil && (len(cuts) == 0 || matchesCut(sl.High)) {
+								if h, ok := isBufPrefix(call.Call.Args[0]); ok && matchesCut(h) {
 									good = true
 								}
 							}
 						}
 					}
+				} else if _, isLd := isLoadOfField(st.Val, "BlockParser", "offset"); isLd && startLoad != nil {
+					// the parser's offset read again after exactly one advance that follows the read used for StartOffset
+					ld := st.Val.(ssa.Instruction)
+					nAdv := 0
+					eachInstr(fn, func(x ssa.Instruction) {
+						isAdv := false
+						if call, ok := x.(*ssa.Call); ok && advancers[call.Call.StaticCallee()] {
+							isAdv = true
+						}
+						if st2, ok := x.(*ssa.Store); ok {
+							if fa, ok := isFieldAddr(st2.Addr, "BlockParser", "offset"); ok {
+								if _, isAlloc := fa.X.(*ssa.Alloc); !isAlloc {
+									isAdv = true
+								}
+							}
+						}
+						if !isAdv {
+							return
+						}
+						after := x.Block() == startLoad.Block() && instrBefore(startLoad, x) || x.Block() != startLoad.Block() && startLoad.Block().Dominates(x.Block())
+						before := x.Block() == ld.Block() && instrBefore(x, ld) || x.Block() != ld.Block() && x.Block().Dominates(ld.Block())
+						if after && before {
+							nAdv++
+						}
+					})
+					good = nAdv == 1
+					if !good {
+						why = fmt.Sprintf("EndOffset is the parser's offset read again, but %d advances lie between the read for StartOffset and this one (exactly one is needed)", nAdv)
+					}
 				}
-				c.Check(good, "PROV(offset)", key, st.Pos(), "EndOffset must be offset + unpaddedNullLength(buf[:k]) with k the cut bound")
+				c.Check(good, "PROV(offset)", key, st.Pos(), why)
 			}
 			if _, ok := isFieldAddr(st.Addr, "RootBlock", "StartOffset"); ok {
 				_, good := isLoadOfField(st.Val, "BlockParser", "offset")
